@@ -80,6 +80,11 @@ fn lines(v: &V, addr: u32) -> Vec<Vec<u8>> {
         Carrier::Bds20 { pre, .. } => match pre {
             0 => l.push(hexline(&frames::df20(addr, frames::ac13_for_alt(7000), 0))),
             1 => l.push(hexline(&frames::df11(0, addr, 0))),
+            3 => {
+                // capability 5 and an identification squitter with another callsign before the reply
+                l.push(hexline(&frames::df11(5, addr, 0)));
+                l.push(hexline(&frames::df17(5, addr, frames::me_ident(4, 3, frames::callsign_codes(SENT)))));
+            }
             _ => l.push(hexline(&frames::df11(5, addr, 0))),
         },
     }
@@ -110,7 +115,7 @@ fn judge(ctx: &mut Ctx, cfg: &Cfg, v: &V, addr: u32, o: &Obs) {
             }
         }
         Carrier::Bds20 { df, pre } => {
-            let open = relaxed || pre == 2;
+            let open = relaxed || pre >= 2;
             let site = format!("C07/bds20/DF{df}/pre{pre}/{}", cfg.label());
             ctx.outcome(&("bds20", &s.ais, open));
             if open {
@@ -120,11 +125,12 @@ fn judge(ctx: &mut Ctx, cfg: &Cfg, v: &V, addr: u32, o: &Obs) {
                 }
             } else {
                 ctx.count("bds20-gate-closed");
-                if s.ais.is_some() {
+                if s.ais.is_some() && pre != 3 {
                     ctx.violation(&site, &key, || format!("{} ({key}): no capability >= 4 recorded and no -R, yet the row shows callsign {:?}", frame(v, addr).hex(), s.ais), case);
                 }
             }
-            if s.category != (0, 0) {
+            let want_cat = if pre == 3 { (4, 3) } else { (0, 0) };
+            if s.category != want_cat {
                 ctx.violation(&site, &key, || format!("BDS 2,0 reply changed the emitter category to {:?}", s.category), case);
             }
         }
@@ -218,7 +224,10 @@ fn run(ctx: &mut Ctx) {
             continue; // pairs: every 7th for the Comm-B carriers
         }
         for df in [20u32, 21] {
-            for pre in 0..3u32 {
+            for pre in 0..4u32 {
+                if pre == 3 && fields::callsign(chars).is_empty() {
+                    continue; // an empty BDS 2,0 callsign may leave the squitter's callsign in place
+                }
                 items.push(V { chars: *chars, tc: 0, ca: 0, update: true, carrier: Carrier::Bds20 { df, pre }, prev: None });
             }
         }
